@@ -17,7 +17,8 @@ EXPLANATION = (
     "is delivered only with `next_batch is not None` and `<arrival side> <= <tick side>` in this orientation, non-strict (never "
     "before its arrival, not later than the first tick at or after it).  (3) K16 accumulate-and-flush: batch_by_arrival and "
     "batch_by_pipeline put every element into exactly one group, group consecutive elements by exact equality (==) of the key, "
-    "yield a group before starting the next one and flush the last group after the loop.  (4) K14b grid agreement: the writer "
+    "yield a group before starting the next one and flush the last group after the loop; a group starts only where the key changes (path "
+    "property) and the group list is never emptied, cut or re-bound during the pass.  (4) K14b grid agreement: the writer "
     "(gentrace) emits G_w(tick) and the reader must compare the stored arrival against the image of the same forward map, "
     "`arrival <= G(current_tick)` with G float-structurally identical to G_w — comparing through an inverse of a rounded float map "
     "does not make `written at tick k => delivered at tick k` hold.  (5) both sides use the same ticks_per_second and the same "
